@@ -23,6 +23,15 @@ func VerifDir() string {
 	return "/verif"
 }
 
+// OutDir is where evidence, replays and scratch results are written (differs
+// from VerifDir only when a check is pointed at a scratch tree).
+func OutDir() string {
+	if d := os.Getenv("VERIF_OUT"); d != "" {
+		return d
+	}
+	return VerifDir()
+}
+
 // VariantEnv returns extra environment for a build variant's processes and
 // the binary suffix it runs.
 func VariantEnv(variant string) (bin string, env []string) {
@@ -97,7 +106,7 @@ type evidence struct {
 // findings, writes evidence and returns the exit code.
 func RunCheck(p *Prop, tier string) int {
 	start := time.Now()
-	vd := VerifDir()
+	vd := OutDir()
 	binDir := os.Getenv("VERIF_BIN")
 	if binDir == "" {
 		binDir = filepath.Join(vd, ".work", "bin")
@@ -137,13 +146,29 @@ func RunCheck(p *Prop, tier string) int {
 	var results []*WorkerResult
 	harnessErr := ""
 	sem := make(chan struct{}, 16)
-	for vi, variant := range variants {
+	maxBound := boundOf(p, tier)
+	passes := []int{maxBound}
+	if tier == "thorough" && maxBound >= 2 {
+		passes = []int{maxBound - 1, maxBound} // iterate the bound: complete b-1 before b
+	}
+	boundCompleted := -1
+	deadlineAll := start.Add(budget)
+	for _, passBound := range passes {
+	  passTruncated := false
+	  var passResults []*WorkerResult
+	  remaining := time.Until(deadlineAll)
+	  if remaining < 5*time.Second {
+		break
+	  }
+	  for vi, variant := range variants {
 		bin, env := VariantEnv(variant)
 		exe := filepath.Join(binDir, "vcheck-"+bin)
 		golden := ""
 		if p.CrossVariant && vi > 0 {
 			golden = filepath.Join(work, "golden.json")
 		}
+		queue := filepath.Join(work, "queue-"+variant)
+		os.WriteFile(queue, []byte("0"), 0o644)
 		var mu sync.Mutex
 		var wg sync.WaitGroup
 		var vres []*WorkerResult
@@ -156,8 +181,12 @@ func RunCheck(p *Prop, tier string) int {
 				out := filepath.Join(work, fmt.Sprintf("%s-%d.json", variant, s))
 				cmd := exec.Command(exe, "--worker", "--id", p.ID, "--tier", tier, "--variant", variant,
 					"--shard", fmt.Sprintf("%d/%d", s, nshards), "--out", out,
-					"--budget", fmt.Sprint(int(budget.Seconds())), "--mem", fmt.Sprint(mem))
+					"--budget", fmt.Sprint(int(remaining.Seconds())), "--mem", fmt.Sprint(mem), "--bound", fmt.Sprint(passBound))
 				cmd.Env = append(os.Environ(), env...)
+				if os.Getenv("GOMAXPROCS") == "" {
+					cmd.Env = append(cmd.Env, "GOMAXPROCS=2")
+				}
+				cmd.Env = append(cmd.Env, "VERIF_QUEUE="+queue)
 				if golden != "" {
 					cmd.Env = append(cmd.Env, "VERIF_GOLDEN="+golden)
 				}
@@ -201,7 +230,12 @@ func RunCheck(p *Prop, tier string) int {
 		}
 		wg.Wait()
 		sort.Slice(vres, func(i, j int) bool { return vres[i].Shard < vres[j].Shard })
-		results = append(results, vres...)
+		passResults = append(passResults, vres...)
+		for _, r := range vres {
+			if r.Truncated {
+				passTruncated = true
+			}
+		}
 		if p.CrossVariant && vi == 0 {
 			g := map[uint64]uint64{}
 			for _, r := range vres {
@@ -212,6 +246,25 @@ func RunCheck(p *Prop, tier string) int {
 			b, _ := json.Marshal(g)
 			os.WriteFile(filepath.Join(work, "golden.json"), b, 0o644)
 		}
+	  }
+	  // a later pass re-executes everything of the earlier one: keep the
+	  // deepest pass that produced results (and every violation seen)
+	  if !passTruncated {
+		boundCompleted = passBound
+		results = passResults
+	  } else {
+		if len(results) == 0 {
+			results = passResults
+		} else {
+			// keep the completed pass for the counts, add violations of the partial one
+			for _, r := range passResults {
+				results = append(results, &WorkerResult{Shard: r.Shard, Variant: r.Variant, Truncated: true,
+					Violations: r.Violations, ViolCounts: r.ViolCounts, HarnessError: r.HarnessError,
+					Executions: 0, Counters: map[string]int64{"partial_pass_executions": r.Executions}})
+			}
+		}
+		break
+	  }
 	}
 
 	// aggregate
@@ -283,8 +336,26 @@ func RunCheck(p *Prop, tier string) int {
 	exit := 0
 	confirmed, nondet := 0, 0
 	var nondetKeys []string
+	// known findings first, then at most maxConfirm other groups are replayed
+	isKnown := func(k string) bool {
+		for _, kf := range kn {
+			if kf.kind+"|"+kf.shape == k {
+				return true
+			}
+		}
+		return false
+	}
+	sort.SliceStable(gkeys, func(i, j int) bool { return isKnown(gkeys[i]) && !isKnown(gkeys[j]) })
+	const maxConfirm = 8
+	unknownSeen := 0
 	for _, k := range gkeys {
 		g := groups[k]
+		if !isKnown(k) {
+			unknownSeen++
+			if unknownSeen > maxConfirm {
+				continue
+			}
+		}
 		sort.Slice(g, func(i, j int) bool {
 			if len(g[i].Case) != len(g[j].Case) {
 				return len(g[i].Case) < len(g[j].Case)
@@ -343,6 +414,7 @@ func RunCheck(p *Prop, tier string) int {
 		"choice_points":       points,
 		"max_depth":           maxDepth,
 		"deviation_bound":     boundOf(p, tier),
+		"deviation_bound_completed": boundCompleted,
 		"max_deviations_used": maxCost,
 		"variants":            variants,
 		"executions_by_variant": perVariantExec,
@@ -351,6 +423,7 @@ func RunCheck(p *Prop, tier string) int {
 		"violation_groups":    violCounts,
 		"confirmed_groups":    confirmed,
 		"nondeterministic":    nondetKeys,
+		"groups_not_replayed": max(0, unknownSeen-maxConfirm),
 		"budget_s":            budget.Seconds(),
 	}
 	if p.MC || p.Level == "model_checking" {
